@@ -12,6 +12,11 @@
 static int g_chunks = 1;
 extern "C" int omp_get_num_procs(void) noexcept { return g_chunks; }
 extern "C" int omp_get_max_threads(void) noexcept { return g_chunks; }
+extern "C" int omp_get_thread_num(void) noexcept { return 0; }      // pragmas are ignored in this build: every parallel region runs as a team of one
+extern "C" int omp_get_num_threads(void) noexcept { return 1; }
+extern "C" int omp_in_parallel(void) noexcept { return 0; }
+extern "C" void omp_set_num_threads(int) noexcept {}
+extern "C" int omp_get_thread_limit(void) noexcept { return 1; }
 
 #ifdef VERIF_ASAN
 extern "C" void __asan_on_error() {
@@ -184,40 +189,66 @@ template<typename D> static std::string answers(const D &d) {
     return s + "#" + std::to_string(d.size());
 }
 
-// every history of depth <= D over 3 keys; at every point the reserved value is offered for every key and lo>hi ranges are tried
-static void dynamic_tombstone(Ctx &c, int D, int first_op, uint8_t base, uint8_t buf, uint8_t idxl) {
-    const uint32_t keys[3] = {2, 3, 7};
+// every history of depth <= D over 3 keys; at every point the reserved value is offered for every key and lo>hi ranges are tried;
+// values next to the reserved one (and other special values of the mapped type) must be accepted and found afterwards
+template<typename D_, typename K, typename V>
+static void dynamic_tombstone_t(Ctx &c, const char *tname, int D, int first_op, uint8_t base, uint8_t buf, uint8_t idxl) {
+    const K keys[3] = {2, 3, 7};
     struct Op { int kind; int k; };
     std::vector<Op> ops; for (int k = 0; k < 3; ++k) { ops.push_back({0, k}); ops.push_back({1, k}); }
-    const uint32_t reserved = std::numeric_limits<uint32_t>::max();
-    std::function<void(Dyn &, std::vector<int> &)> rec = [&](Dyn &d, std::vector<int> &hist) {
+    const V reserved = std::numeric_limits<V>::max();
+    std::vector<V> special;   // ordinary values that look special
+    if constexpr (std::is_floating_point_v<V>) { special = {std::numeric_limits<V>::infinity(), std::nextafter(reserved, V(0)), std::numeric_limits<V>::lowest(), V(0)}; }
+    else { special = {V(reserved - 1), V(0), std::numeric_limits<V>::lowest()}; if constexpr (std::is_signed_v<V>) special.push_back(V(-1)); }
+    if constexpr (!std::is_same_v<K, V>) { if (double(std::numeric_limits<K>::max()) < double(reserved)) special.push_back(V(std::numeric_limits<K>::max())); }
+    std::function<void(D_ &, std::vector<int> &)> rec = [&](D_ &d, std::vector<int> &hist) {
         std::string h; for (size_t i = 0; i < hist.size(); ++i) h += (i ? "," : "") + std::string(ops[hist[i]].kind ? "E" : "I") + std::to_string(keys[ops[hist[i]].k]);
-        std::string cs = "part=tombstone base=" + std::to_string(base) + " buf=" + std::to_string(buf) + " idx=" + std::to_string(idxl) + " hist=" + (h.empty() ? "-" : h);
+        std::string cs = std::string("part=tombstone type=") + tname + " base=" + std::to_string(base) + " buf=" + std::to_string(buf) + " idx=" + std::to_string(idxl) + " hist=" + (h.empty() ? "-" : h);
         c.run.set_case(cs); c.run.add(c.cn.cases);
         std::string before_c = canon(d), before_a = answers(d);
-        for (uint32_t k : {2u, 3u, 5u, 7u}) {
+        for (K k : {K(2), K(3), K(5), K(7)}) {
             c.run.add(c.cn.rejected_inserts); c.run.add(c.cn.invalid);
             Outcome o = outcome_of([&] { d.insert_or_assign(k, reserved); });
             if (o != INVALID_ARGUMENT) { c.run.violation(cs + " key=" + std::to_string(k), std::string("insert_or_assign with the reserved value: expected std::invalid_argument, got ") + oname(o)); return; }
             c.run.add(c.cn.states_compared);
             if (canon(d) != before_c || answers(d) != before_a) { c.run.violation(cs + " key=" + std::to_string(k), "a rejected insert changed the container"); return; }
         }
+        for (size_t si = 0; si < special.size(); ++si) {   // on a copy: an ordinary value must be stored and found
+            c.run.add(c.cn.valid);
+            D_ n(d); V v = special[si];
+            Outcome o = outcome_of([&] { n.insert_or_assign(K(5), v); });
+            if (o != ACCEPTED) { c.run.violation(cs + " special_value#" + std::to_string(si), std::string("insert_or_assign with an ordinary value was rejected with ") + oname(o)); return; }
+            auto f = n.find(K(5));
+            if (f == n.end() || !(f->second == v)) { c.run.violation(cs + " special_value#" + std::to_string(si), "a value that is not reserved was not stored (find() does not return it)"); return; }
+        }
         for (uint32_t lo = 0; lo < 10; lo += 3) for (uint32_t hi = 0; hi < 10; hi += 2) {
             c.run.add(c.cn.ranges);
-            Outcome o = outcome_of([&] { (void) d.range(lo, hi); });
+            Outcome o = outcome_of([&] { (void) d.range(K(lo), K(hi)); });
             if (lo > hi) { c.run.add(c.cn.invalid); if (o != INVALID_ARGUMENT) { c.run.violation(cs + " range=" + std::to_string(lo) + ".." + std::to_string(hi), std::string("range(lo > hi): expected std::invalid_argument, got ") + oname(o)); return; } }
             else { c.run.add(c.cn.valid); if (o != ACCEPTED) { c.run.violation(cs + " range=" + std::to_string(lo) + ".." + std::to_string(hi), std::string("range(lo <= hi) was rejected with ") + oname(o)); return; } }
         }
         if (int(hist.size()) == D || c.run.deadline_passed()) return;
         for (size_t i = 0; i < ops.size(); ++i) {
             if (hist.empty() && int(i) != first_op) continue;
-            Dyn n(d);
-            if (ops[i].kind == 0) n.insert_or_assign(keys[ops[i].k], uint32_t(hist.size() + 1)); else n.erase(keys[ops[i].k]);
+            D_ n(d);
+            if (ops[i].kind == 0) n.insert_or_assign(keys[ops[i].k], V(hist.size() + 1)); else n.erase(keys[ops[i].k]);
             hist.push_back(int(i)); rec(n, hist); hist.pop_back();
         }
     };
-    Dyn d(base, buf, idxl); std::vector<int> hist;
+    D_ d(base, buf, idxl); std::vector<int> hist;
     rec(d, hist);
+}
+static void dynamic_tombstone(Ctx &c, int D, int first_op, uint8_t base, uint8_t buf, uint8_t idxl) {
+    dynamic_tombstone_t<Dyn, uint32_t, uint32_t>(c, "u32/u32", D, first_op, base, buf, idxl);
+    if (base == 2) {   // other key / mapped-value type pairs at a smaller depth
+        int d2 = std::max(2, D - 2);
+        dynamic_tombstone_t<pgm::DynamicPGMIndex<int32_t, int32_t, pgm::PGMIndex<int32_t, 1, 1>>, int32_t, int32_t>(c, "i32/i32", d2, first_op, base, buf, idxl);
+        dynamic_tombstone_t<pgm::DynamicPGMIndex<uint32_t, uint64_t, pgm::PGMIndex<uint32_t, 1, 1>>, uint32_t, uint64_t>(c, "u32/u64", d2, first_op, base, buf, idxl);
+        dynamic_tombstone_t<pgm::DynamicPGMIndex<uint32_t, int32_t, pgm::PGMIndex<uint32_t, 1, 1>>, uint32_t, int32_t>(c, "u32/i32", d2, first_op, base, buf, idxl);
+        dynamic_tombstone_t<pgm::DynamicPGMIndex<int64_t, double, pgm::PGMIndex<int64_t, 2, 1>>, int64_t, double>(c, "i64/f64", d2, first_op, base, buf, idxl);
+        dynamic_tombstone_t<pgm::DynamicPGMIndex<uint32_t, float, pgm::PGMIndex<uint32_t, 1, 1>>, uint32_t, float>(c, "u32/f32", d2, first_op, base, buf, idxl);
+        dynamic_tombstone_t<pgm::DynamicPGMIndex<uint16_t, uint8_t, pgm::PGMIndex<uint16_t, 1, 1>>, uint16_t, uint8_t>(c, "u16/u8", d2, first_op, base, buf, idxl);
+    }
 }
 
 // ---- 6. MultidimensionalPGMIndex -----------------------------------------------------------------------------------------------
@@ -248,6 +279,28 @@ template<uint8_t Dm, typename T, typename In = T> static void multidim_wide(Ctx 
                     if (o == ACCEPTED) c.run.violation(cs + " value=" + mc::key_str(w), "a coordinate too wide for the encoder was accepted");
                 }
             }
+}
+
+// tuples of a signed type: a negative coordinate is too wide for every encoder (it converts to a huge unsigned value)
+template<uint8_t Dm, typename T, typename In> static void multidim_negative(Ctx &c, const char *name) {
+    using MDI = pgm::MultidimensionalPGMIndex<Dm, T, 4>;
+    for (int npts = 1; npts <= 3; ++npts) for (int pos = 0; pos < npts; ++pos) for (int dim = 0; dim < Dm; ++dim) {
+        auto build = [&](In v) {
+            std::vector<decltype(tup<Dm, In>(std::array<In, Dm>{}, std::make_index_sequence<Dm>()))> pts;
+            for (int p = 0; p < npts; ++p) { std::array<In, Dm> a; for (int d = 0; d < Dm; ++d) a[d] = In(p + d); if (p == pos) a[dim] = v; pts.push_back(tup<Dm, In>(a, std::make_index_sequence<Dm>())); }
+            MDI m(pts.begin(), pts.end());
+            (void) m.size_in_bytes();
+        };
+        std::string cs = std::string("part=multidim cfg=") + name + " points=" + std::to_string(npts) + " pos=" + std::to_string(pos) + " dim=" + std::to_string(dim);
+        c.run.set_case(cs); c.run.add(c.cn.multidim); c.run.add(c.cn.cases); c.run.add(c.cn.valid);
+        Outcome ok = outcome_of([&] { build(In(5)); });
+        if (ok != ACCEPTED) c.run.violation(cs + " value=5", std::string("a small non-negative coordinate was rejected with ") + oname(ok));
+        for (In w : {In(-1), In(-2), std::numeric_limits<In>::lowest()}) {
+            c.run.add(c.cn.invalid);
+            Outcome o = outcome_of([&] { build(w); });
+            if (o == ACCEPTED) c.run.violation(cs + " value=" + std::to_string(long(w)), "a negative coordinate was accepted");
+        }
+    }
 }
 
 // ---- 7. segmentation builder ----------------------------------------------------------------------------------------------------
@@ -366,7 +419,8 @@ int main(int argc, char **argv) {
         } else if (t.part == 2) dynamic_bases(c);
         else if (t.part == 3) { if (t.sub == 0) dynamic_bulk<Dyn, uint32_t>(c, "u32", thorough ? 5 : 4); else dynamic_bulk<DynI64, int64_t>(c, "i64", thorough ? 5 : 4); }
         else if (t.part == 4) { static const uint8_t cfgs[3][3] = {{2, 1, 2}, {4, 1, 2}, {8, 0, 0}}; dynamic_tombstone(c, D, t.first, cfgs[t.sub][0], cfgs[t.sub][1], cfgs[t.sub][2]); }
-        else if (t.part == 5) { multidim_wide<2, uint32_t>(c, "md<2,u32>"); multidim_wide<3, uint32_t>(c, "md<3,u32>"); multidim_wide<2, uint64_t>(c, "md<2,u64>"); multidim_wide<3, uint64_t>(c, "md<3,u64>"); multidim_wide<4, uint64_t>(c, "md<4,u64>"); multidim_wide<2, uint32_t, uint64_t>(c, "md<2,u32> from u64 tuples"); multidim_wide<3, uint32_t, uint64_t>(c, "md<3,u32> from u64 tuples"); }
+        else if (t.part == 5) { multidim_wide<2, uint32_t>(c, "md<2,u32>"); multidim_wide<3, uint32_t>(c, "md<3,u32>"); multidim_wide<2, uint64_t>(c, "md<2,u64>"); multidim_wide<3, uint64_t>(c, "md<3,u64>"); multidim_wide<4, uint64_t>(c, "md<4,u64>"); multidim_wide<2, uint32_t, uint64_t>(c, "md<2,u32> from u64 tuples"); multidim_wide<3, uint32_t, uint64_t>(c, "md<3,u32> from u64 tuples");
+            multidim_negative<2, uint64_t, int16_t>(c, "md<2,u64> from i16 tuples"); multidim_negative<3, uint64_t, int16_t>(c, "md<3,u64> from i16 tuples"); multidim_negative<2, uint32_t, int8_t>(c, "md<2,u32> from i8 tuples"); multidim_negative<2, uint64_t, int64_t>(c, "md<2,u64> from i64 tuples"); }
         else { builder_sequences<uint32_t>(c, "u32"); builder_sequences<uint64_t>(c, "u64"); builder_sequences<int64_t>(c, "i64"); builder_sequences<double>(c, "f64"); }
     });
     { std::string cmd = "rm -rf " + g_dir; if (system(cmd.c_str())) {} }
@@ -382,7 +436,7 @@ int main(int argc, char **argv) {
     ev.states_counter = "distinct_cases"; ev.transitions_counter = "invalid_inputs_checked_to_be_rejected"; ev.nontrivial_counter = "invalid_inputs_checked_to_be_rejected"; ev.eval_counter = "valid_neighbour_inputs_checked_to_be_accepted";
     ev.rule = "every sorted array of length 1.." + std::to_string(N) + " over three palettes with 1..3 copies of the reserved value appended (numeric max, +infinity for floating keys) must make PGMIndex, CompressedPGMIndex, BucketingPGMIndex, EliasFanoPGMIndex, MappedPGMIndex (range and raw-file constructors) throw std::invalid_argument and the four C create functions return NULL, while the same array without it is accepted; the same with 32767/32768/40000-key inputs and 1..20 construction threads (chunked segmentation); "
               "DynamicPGMIndex: every base 2..255 through three constructors (reject iff not a power of two); every sequence of <= " + std::to_string(thorough ? 5 : 4) + " bulk-load keys over 4 values (reject iff an inversion exists); every history of depth <= " + std::to_string(D) +
-              " over 3 keys with the reserved mapped value offered for 4 keys at every point (must throw and leave canonical state and all answers unchanged) and lo>hi ranges tried at every point; MultidimensionalPGMIndex: every point position x dimension with the coordinate at the first too-wide value and above (reject) and just below (accept), also from tuples of a wider integer type whose values only fit after truncation; "
+              " over 3 keys (mapped types u32, and at a smaller depth i32, u64, double, float, u8 with keys of another type) with the reserved mapped value offered for 4 keys at every point and the values next to it, -1, +infinity and the largest key value stored and found on a copy (must throw and leave canonical state and all answers unchanged) and lo>hi ranges tried at every point; MultidimensionalPGMIndex: every point position x dimension with the coordinate at the first too-wide value and above (reject) and just below (accept), also from tuples of a wider integer type whose values only fit after truncation and from tuples of signed types with negative coordinates; "
               "builder: every add_point sequence of length <= 4 over 3 x-values, epsilon 0/1 (std::logic_error exactly when x does not exceed its predecessor inside a segment), negative epsilon on a signed rank type. State = one case; non-trivial = an invalid input that must be rejected.";
     ev.bounds = "N<=" + std::to_string(N) + ", history depth " + std::to_string(D);
     ev.assumptions = {"the kind of exception is the one the property names; for too-wide coordinates any exception counts as rejection"};
